@@ -24,6 +24,14 @@ Sim == {[form |-> f, b |-> b, runs |-> r, n |-> n] : f \in {"sim", "sim_reach", 
 Control == {[form |-> f, sub |-> s] : f \in {"control_AG", "control_AF", "control_until", "ef_control", "po_control"}, s \in Sub}
            \cup {[form |-> f] : f \in {"control_t2", "control_t1", "control_t0"}}
            \cup {[form |-> "control_buchi", conj |-> a, sub |-> s] : a \in {"and", "&&"}, s \in Sub}      \* control: A[] (p and A<> q) - the Buechi objective, a production of its own
+(* the first state formula of a form (P.L1 in the plain variants) replaced by a formula with another operator at its top: what stands in a slot of a
+   query form decides which parentheses its printed text needs *)
+SlotOps == {"or", "and", "imply", "not", "ite", "forall", "cmp", "orkw"}
+Slotted == {[form |-> f, op |-> o] : f \in {"AG", "leads", "until", "wuntil"}, o \in SlotOps}
+           \cup {[form |-> f, sub |-> "", op |-> o] : f \in {"control_AG", "control_until", "ef_control"}, o \in SlotOps}
+           \cup {[form |-> "control_buchi", conj |-> a, sub |-> "", op |-> o] : a \in {"and", "&&"}, o \in SlotOps}
+           \cup {[form |-> "pr_until", b |-> "time", runs |-> 0, op |-> o] : o \in SlotOps}
+OpKind(o) == CASE o \in {"or", "orkw", "imply"} -> "OR" [] o = "and" -> "AND" [] o = "not" -> "NOT" [] o = "ite" -> "INLINE_IF" [] o = "forall" -> "FORALL" [] o = "cmp" -> "GT"
 Learn == {[form |-> f, b |-> b, feat |-> ft, sub |-> s] : f \in {"minE", "maxE", "minPr", "maxPr"}, b \in Bounds,
             ft \in {"none", "both", "empty"}, s \in Sub}
 Strat == {[form |-> f] : f \in {"load", "load_feat", "save", "assign_minE", "assign_control"}}
@@ -57,7 +65,8 @@ RootKind(q) ==
       [] q.form \in {"mitl_until", "mitl_release", "mitl_next", "mitl_diamond", "mitl_box"} -> "MITL_FORMULA"
 (* and of its first operand, where the form fixes it *)
 ChildKind(q) ==
-    CASE q.form \in {"AG", "EF", "control_AG", "control_AF", "control_t0", "ef_control", "assign_control"} -> "DOT"
+    CASE "op" \in DOMAIN q -> (IF q.form \in {"AG", "control_AG", "ef_control"} THEN OpKind(q.op) ELSE "")
+      [] q.form \in {"AG", "EF", "control_AG", "control_AF", "control_t0", "ef_control", "assign_control"} -> "DOT"
       [] q.form \in {"AGnot", "deadlock", "EG"} -> "NOT"
       [] q.form = "EFand" -> "AND"
       [] q.form = "AGimply" -> "OR"                      \* `a imply b` is built as `!a || b`
@@ -74,7 +83,7 @@ Valid(q) == /\ q.form \notin {"until", "wuntil", "buchi"}
             /\ ~(q.form = "pr_cmp" /\ "runs" \in DOMAIN q)
 WithKinds(S) == {[qq |-> q, root |-> RootKind(q), child |-> ChildKind(q), valid |-> Valid(q)] : q \in S}
 
-All == Symbolic \cup SupInf \cup PrQuant \cup PrQual \cup PrCmp \cup PrCmpRuns \cup Exp \cup Sim \cup Control \cup Learn \cup Strat \cup Mitl
+All == Symbolic \cup Slotted \cup SupInf \cup PrQuant \cup PrQual \cup PrCmp \cup PrCmpRuns \cup Exp \cup Sim \cup Control \cup Learn \cup Strat \cup Mitl
 ASSUME ndJsonSerialize(IOEnv.OUTF, SetToSeq(All))
 ASSUME ndJsonSerialize(IOEnv.OUTF \o ".kinds", SetToSeq(WithKinds(All)))
 VARIABLE dummy
